@@ -268,7 +268,7 @@ fn still_fails(prop: &dyn Property, kf: &Known, case: &Case, rule: &str) -> Opti
 /// rule-preserving delta debugging on the texts / bytes of a case
 pub fn shrink(prop: &dyn Property, kf: &Known, case: &Case, rule: &str) -> Case {
     let mut best = case.clone();
-    if case.kind == "xtool" {
+    if case.kind == "xtool" || case.kind == "xfresh" {
         // (source, digest observed by the other toolchain's harness): the pair is the evidence
         return best;
     }
